@@ -1088,6 +1088,9 @@ class C11(Property):
         net = gen.gen_network(rng, rows=rng.randint(1, 2), cols=rng.randint(1, 3), ids=ids, signs=False,
                               intersections=False, stop_lines=rng.chance(0.5))
         net.pop("_geom", None)
+        for lt in net["lights"]:
+            if rng.chance(0.2):
+                lt["pos"] = None  # a light without a position of its own (writers and renderer support that)
         obstacles = []
         for _ in range(rng.randint(1, 4)):
             role = rng.weighted(["static", "dynamic", "dynamic_nopred", "dynamic_set", "phantom"], [2, 5, 1, 1, 1])
